@@ -556,6 +556,7 @@ package vm
 // SHL: mu'[0] = (mu[1] * 2^mu[0]) mod 2^256, 0 for shifts >= 256
 //@ func opSHL props C15
 //@ panics none
+//@ opt model-defers     // `defer interpreter.intPool.put(shift)` is executed at every return
 //@ requires c15Pre2(stack, interpreter)
 //@ let n = len(stack.data)
 //@ let a = big(stack.data[n - 1])
@@ -566,6 +567,7 @@ package vm
 //@ ensures [others] c15Keep(stack, n - 2)
 //@ assert after call U256#1: [shift-read] big(ret) == a
 //@ assert after call U256#2: [value-read] big(ret) == b
+//@ assert after call U256#2: [big-frame] forall r: *big.Int :: r != old(stack.data[n - 1]) && r != old(stack.data[n - 2]) ==> big(r) == old(big(r))
 //@ ensures [own-base] old(c15Own(stack, interpreter)) ==> c15Base(stack, interpreter)
 //@ ensures [own-distinct] old(c15Own(stack, interpreter)) ==> c15Distinct(stack)
 //@ ensures [own-pool] old(c15Own(stack, interpreter)) ==> c15Distinct(interpreter.intPool.pool)
@@ -574,6 +576,7 @@ package vm
 // SHR: mu'[0] = floor(mu[1] / 2^mu[0]), 0 for shifts >= 256
 //@ func opSHR props C15
 //@ panics none
+//@ opt model-defers     // `defer interpreter.intPool.put(shift)` is executed at every return
 //@ requires c15Pre2(stack, interpreter)
 //@ let n = len(stack.data)
 //@ let a = big(stack.data[n - 1])
@@ -584,6 +587,7 @@ package vm
 //@ ensures [others] c15Keep(stack, n - 2)
 //@ assert after call U256#1: [shift-read] big(ret) == a
 //@ assert after call U256#2: [value-read] big(ret) == b
+//@ assert after call U256#2: [big-frame] forall r: *big.Int :: r != old(stack.data[n - 1]) && r != old(stack.data[n - 2]) ==> big(r) == old(big(r))
 //@ ensures [own-base] old(c15Own(stack, interpreter)) ==> c15Base(stack, interpreter)
 //@ ensures [own-distinct] old(c15Own(stack, interpreter)) ==> c15Distinct(stack)
 //@ ensures [own-pool] old(c15Own(stack, interpreter)) ==> c15Distinct(interpreter.intPool.pool)
@@ -592,6 +596,7 @@ package vm
 // SAR: mu'[0] = floor(sgn(mu[1]) / 2^mu[0]) as a 256-bit two's complement word; for shifts >= 256: 0 or 2^256-1 (sign fill)
 //@ func opSAR props C15
 //@ panics none
+//@ opt model-defers     // `defer interpreter.intPool.put(shift)` is executed at every return
 //@ requires c15Pre2(stack, interpreter)
 //@ let n = len(stack.data)
 //@ let a = big(stack.data[n - 1])
@@ -749,14 +754,17 @@ package vm
 //@ ensures [own-sep] old(c15Own(stack, interpreter)) ==> c15Sep(stack, interpreter.intPool.pool)
 //@ ensures [ret] isnil(result0) && result1 == nil
 
-// EXP: the new top is a new integer holding a 256-bit word (math.Exp); that it is mu[0]^mu[1] mod 2^256 is not decided.
+// EXP: mu'[0] = mu[0]^mu[1] mod 2^256 (c15ExpWord, see common/math); the new top is a NEW integer (math.Exp), both
+// operand references go to the pool.
 //@ func opExp props C15
 //@ panics none
 //@ requires c15Pre2(stack, interpreter)
 //@ let n = len(stack.data)
 //@ let a = big(stack.data[n - 1])
+//@ let b = big(stack.data[n - 2])
 //@ modifies stack.data, stack.data[n - 2], big(stack.data[n - 1]), interpreter.intPool.pool.data, elems(interpreter.intPool.pool.data)
 //@ ensures [len] len(stack.data) == n - 1
+//@ ensures [result] big(stack.data[n - 2]) == c15ExpWord(a, b)
 //@ ensures [word] 0 <= big(stack.data[n - 2]) && big(stack.data[n - 2]) < 2^256
 //@ ensures [others] c15Keep(stack, n - 2)
 //@ ensures [own-base] old(c15Own(stack, interpreter)) ==> c15Base(stack, interpreter)
@@ -853,6 +861,9 @@ package vm
 
 //@ func newFrontierInstructionSet props C15
 //@ modifies nothing
+//@ ensures [wire-arith] c15WireArith(result)
+//@ ensures [wire-cmp-bit] c15WireCmpBit(result)
+//@ ensures [wire-stack-mem] c15WireStackMem(result)
 //@ ensures [arith] c15TableArith(result)
 //@ ensures [cmp-bit] c15TableCmpBit(result)
 //@ ensures [stack-mem] c15TableStackMem(result)
@@ -860,12 +871,18 @@ package vm
 // Later instruction sets are copies with additions; the rows of the computational groups must survive every step.
 //@ func newHomesteadInstructionSet props C15
 //@ modifies nothing
+//@ ensures [wire-arith] c15WireArith(result)
+//@ ensures [wire-cmp-bit] c15WireCmpBit(result)
+//@ ensures [wire-stack-mem] c15WireStackMem(result)
 //@ ensures [arith] c15TableArith(result)
 //@ ensures [cmp-bit] c15TableCmpBit(result)
 //@ ensures [stack-mem] c15TableStackMem(result)
 
 //@ func newByzantiumInstructionSet props C15
 //@ modifies nothing
+//@ ensures [wire-arith] c15WireArith(result)
+//@ ensures [wire-cmp-bit] c15WireCmpBit(result)
+//@ ensures [wire-stack-mem] c15WireStackMem(result)
 //@ ensures [arith] c15TableArith(result)
 //@ ensures [cmp-bit] c15TableCmpBit(result)
 //@ ensures [stack-mem] c15TableStackMem(result)
@@ -873,6 +890,10 @@ package vm
 // Constantinople adds SHL, SHR, SAR (EIP-145: W_verylow).
 //@ func newConstantinopleInstructionSet props C15
 //@ modifies nothing
+//@ ensures [wire-arith] c15WireArith(result)
+//@ ensures [wire-cmp-bit] c15WireCmpBit(result)
+//@ ensures [wire-stack-mem] c15WireStackMem(result)
+//@ ensures [wire-shift] c15WireShift(result)
 //@ ensures [arith] c15TableArith(result)
 //@ ensures [cmp-bit] c15TableCmpBit(result)
 //@ ensures [stack-mem] c15TableStackMem(result)
@@ -881,7 +902,146 @@ package vm
 // Istanbul is the table the node runs (GetJumpTable returns the package variable initialised with this result).
 //@ func newIstanbulInstructionSet props C15
 //@ modifies nothing
+//@ ensures [wire-arith] c15WireArith(result)
+//@ ensures [wire-cmp-bit] c15WireCmpBit(result)
+//@ ensures [wire-stack-mem] c15WireStackMem(result)
+//@ ensures [wire-shift] c15WireShift(result)
 //@ ensures [arith] c15TableArith(result)
 //@ ensures [cmp-bit] c15TableCmpBit(result)
 //@ ensures [stack-mem] c15TableStackMem(result)
 //@ ensures [shift] c15TableShift(result)
+
+// ---------------------------------------------------------------------------------------------------------------
+// Memory expansion gas ("charges the specified gas"). Yellow Paper (H.1): C_mem(a) = G_memory * a + floor(a^2 / 512)
+// for a words of active memory, G_memory = 3; an instruction that grows the active memory from a to a' words is charged
+// C_mem(a') - C_mem(a). The Memory object remembers the total already charged (lastGasCost); the representation
+// invariant c15MemInv (store length a multiple of 32, lastGasCost == C_mem(store length / 32)) is established by
+// NewMemory, relied on by memoryGasCost (it charges new total - remembered total) and re-established by the pair
+// memoryGasCost(mem, s) ; mem.Resize(32 * words(s)) as the interpreter performs it (memoryGasCost#[total-matches-size]
+// + Resize#[inv-restored]; the sequencing in Run itself is not under contract).
+// ---------------------------------------------------------------------------------------------------------------
+//@ spec func c15MemFee(w: int) int = w * 3 + (w * w) / 512
+//@ spec func c15MemWords(n: int) int = (n + 31) / 32
+// (the bound: 2^32 - 1 words, the largest memory whose total the code can compute; beyond it see the pending finding below)
+//@ spec func c15MemInv(m: *Memory) bool = m != nil && len(m.store) % 32 == 0 && len(m.store) <= 137438953440 && m.lastGasCost == c15MemFee(len(m.store) / 32)
+
+//@ func NewMemory props C15
+//@ panics none
+//@ modifies nothing
+//@ ensures [inv-established] fresh(result) && len(result.store) == 0 && result.lastGasCost == 0 && c15MemInv(result)
+
+//@ func (*Memory).Len props C15
+//@ panics none
+//@ requires m != nil
+//@ pure
+//@ ensures [len] result == len(m.store)
+
+// Resize grows the store to `size` bytes (never shrinks), new bytes zero; the remembered gas total is not touched.
+//@ func (*Memory).Resize props C15
+//@ opt abstract-slices
+//@ requires m != nil && size < 2^62
+//@ modifies m.store, elems(m.store)
+//@ ensures [len] len(m.store) == max(old(len(m.store)), size)
+//@ ensures [total-untouched] m.lastGasCost == old(m.lastGasCost)
+//@ ensures [inv-restored] old(len(m.store)) % 32 == 0 && old(len(m.store)) <= 137438953440 && size % 32 == 0 && size <= 137438953440 && m.lastGasCost == c15MemFee(max(old(len(m.store)), size) / 32) ==> c15MemInv(m)
+
+// memoryGasCost(mem, newMemSize): w = words needed, cur = words active. 1099511627744 = 0xffffffffe0 is the code's overflow
+// guard; 137438953440 = 0x1FFFFFFFE0 is the largest size whose word count squared fits in 64 bits.
+//@ func memoryGasCost props C15
+//@ panics none
+//@ requires c15MemInv(mem)
+//@ let w = c15MemWords(newMemSize)
+//@ let cur = len(mem.store) / 32
+//@ modifies mem.lastGasCost
+//@ ensures [zero-size] newMemSize == 0 ==> result0 == 0 && result1 == nil && mem.lastGasCost == old(mem.lastGasCost)
+//@ ensures [overflow-guard] newMemSize > 1099511627744 ==> result0 == 0 && result1 == errGasUintOverflow && mem.lastGasCost == old(mem.lastGasCost)
+//@ ensures [no-expansion] 0 < newMemSize && newMemSize <= 1099511627744 && w <= cur ==> result0 == 0 && result1 == nil && mem.lastGasCost == old(mem.lastGasCost)
+//@ ensures [fee-is-difference-of-totals] 0 < newMemSize && newMemSize <= 137438953440 && w > cur ==> result1 == nil && result0 == c15MemFee(w) - c15MemFee(cur)
+//@ ensures [running-total-kept] 0 < newMemSize && newMemSize <= 137438953440 && w > cur ==> mem.lastGasCost == c15MemFee(w)
+//@ ensures [total-matches-size] newMemSize <= 137438953440 && result1 == nil ==> mem.lastGasCost == c15MemFee(max(w, cur))
+// KNOWN FINDING (listed in /verif/known_findings.json with its region; the repository's own TestMemoryGasCost pins the wrapped value, so the
+// upstream repair cannot be applied with the existing tests unedited). Genuine defect, see /verif/proposed_fixes/C15/memory_gas_square_overflow.{diff,md} and
+// /verif/findings_proposed/C15.json): for 2^32 <= w < 2^35 the code computes w*w in uint64, the square wraps, and the charge
+// loses (part of) the quadratic term although C_mem(w) < 2^62 is representable. memoryGasCost(empty, 2^37) = 12884901888, specified 36028809903865856.
+//@ ensures [fee-large-sizes] 137438953440 < newMemSize && newMemSize <= 1099511627744 && w > cur ==> result1 == errGasUintOverflow || (result0 == c15MemFee(w) - c15MemFee(cur) && mem.lastGasCost == c15MemFee(w))
+//@ assert before store lastGasCost#1: [monotone] newMemSize <= 137438953440 ==> c15MemFee(cur) <= c15MemFee(w) && c15MemFee(w) < 2^64
+
+// MLOAD, MSTORE, MSTORE8 (and RETURN, REVERT, CREATE…) take their dynamic gas from pureMemoryGascost: exactly memoryGasCost.
+//@ func pureMemoryGascost props C15
+//@ panics none
+//@ requires c15MemInv(mem)
+//@ let w = c15MemWords(memorySize)
+//@ let cur = len(mem.store) / 32
+//@ modifies mem.lastGasCost
+//@ ensures [fee] 0 < memorySize && memorySize <= 137438953440 ==> result1 == nil && result0 == c15MemFee(max(w, cur)) - c15MemFee(cur) && mem.lastGasCost == c15MemFee(max(w, cur))
+//@ ensures [zero-size] memorySize == 0 ==> result0 == 0 && result1 == nil && mem.lastGasCost == old(mem.lastGasCost)
+//@ ensures [overflow-guard] memorySize > 1099511627744 ==> result1 == errGasUintOverflow && mem.lastGasCost == old(mem.lastGasCost)
+
+// Dynamic gas of the copy opcodes and SHA3: memory expansion (as above) plus a per-word charge; thin contracts: the memory
+// part keeps the running total and the charge is at least the memory fee (the per-word part needs big.Int.BitLen: not decided).
+//@ func memoryCopierGas$1 props C15
+//@ requires c15MemInv(mem) && stack != nil && 0 <= stackpos && stackpos < len(stack.data) && len(stack.data) < 2^62 && stack.data[len(stack.data) - stackpos - 1] != nil
+//@ let w = c15MemWords(memorySize)
+//@ let cur = len(mem.store) / 32
+//@ modifies mem.lastGasCost
+//@ ensures [running-total-kept] memorySize <= 137438953440 && result1 == nil ==> mem.lastGasCost == c15MemFee(max(w, cur))
+//@ ensures [at-least-memory-fee] memorySize <= 137438953440 && result1 == nil ==> result0 >= c15MemFee(max(w, cur)) - c15MemFee(cur)
+
+//@ func gasSha3 props C15
+//@ requires c15MemInv(mem) && stack != nil && 2 <= len(stack.data) && len(stack.data) < 2^62 && stack.data[len(stack.data) - 2] != nil
+//@ let w = c15MemWords(memorySize)
+//@ let cur = len(mem.store) / 32
+//@ modifies mem.lastGasCost
+//@ ensures [running-total-kept] memorySize <= 137438953440 && result1 == nil ==> mem.lastGasCost == c15MemFee(max(w, cur))
+//@ ensures [at-least-memory-fee] memorySize <= 137438953440 && result1 == nil ==> result0 >= c15MemFee(max(w, cur)) - c15MemFee(cur)
+
+// ---------------------------------------------------------------------------------------------------------------
+// Wiring of the table for the computational groups: which function executes the opcode, and that NO dynamic gas /
+// memory-size function is attached (so constantGas is the whole charge), except EXP (gasExp) and the memory opcodes
+// (pureMemoryGascost + their memory-size function). DUP/SWAP/PUSH: the closure family (not the captured constant).
+// ---------------------------------------------------------------------------------------------------------------
+//@ spec func c15Plain(t: JumpTable, op: int, f: int) bool = t[op].execute == f && t[op].dynamicGas == nil && t[op].memorySize == nil
+//@ spec func c15WireArith(t: JumpTable) bool =
+//@     c15Plain(t, ADD, opAdd) && c15Plain(t, MUL, opMul) && c15Plain(t, SUB, opSub) && c15Plain(t, DIV, opDiv) &&
+//@     c15Plain(t, SDIV, opSdiv) && c15Plain(t, MOD, opMod) && c15Plain(t, SMOD, opSmod) && c15Plain(t, ADDMOD, opAddmod) &&
+//@     c15Plain(t, MULMOD, opMulmod) && c15Plain(t, SIGNEXTEND, opSignExtend) &&
+//@     t[EXP].execute == opExp && t[EXP].dynamicGas == gasExp && t[EXP].memorySize == nil
+//@ spec func c15WireCmpBit(t: JumpTable) bool =
+//@     c15Plain(t, LT, opLt) && c15Plain(t, GT, opGt) && c15Plain(t, SLT, opSlt) && c15Plain(t, SGT, opSgt) &&
+//@     c15Plain(t, EQ, opEq) && c15Plain(t, ISZERO, opIszero) && c15Plain(t, AND, opAnd) && c15Plain(t, OR, opOr) &&
+//@     c15Plain(t, XOR, opXor) && c15Plain(t, NOT, opNot) && c15Plain(t, BYTE, opByte)
+//@ spec func c15WireStackMem(t: JumpTable) bool =
+//@     c15Plain(t, POP, opPop) && c15Plain(t, JUMPDEST, opJumpdest) &&
+//@     t[MLOAD].execute == opMload && t[MLOAD].dynamicGas == pureMemoryGascost && t[MLOAD].memorySize == memoryMLoad &&
+//@     t[MSTORE].execute == opMstore && t[MSTORE].dynamicGas == pureMemoryGascost && t[MSTORE].memorySize == memoryMStore &&
+//@     t[MSTORE8].execute == opMstore8 && t[MSTORE8].dynamicGas == pureMemoryGascost && t[MSTORE8].memorySize == memoryMStore8 &&
+//@     (forall k: int :: 0 <= k && k < 32 ==> c15Plain(t, PUSH1 + k, makePush$1)) &&
+//@     (forall k: int :: 0 <= k && k < 16 ==> c15Plain(t, DUP1 + k, makeDup$1)) &&
+//@     (forall k: int :: 0 <= k && k < 16 ==> c15Plain(t, SWAP1 + k, makeSwap$1))
+//@ spec func c15WireShift(t: JumpTable) bool = c15Plain(t, SHL, opSHL) && c15Plain(t, SHR, opSHR) && c15Plain(t, SAR, opSAR)
+
+// ---------------------------------------------------------------------------------------------------------------
+// Periphery: who establishes the ownership invariant, and the primitive that deducts gas.
+// ---------------------------------------------------------------------------------------------------------------
+
+// A new stack is empty and owns a new backing array; a new pool owns a new empty stack. With an empty stack and an empty
+// pool c15Distinct/c15Sep/c15Slots/c15Words hold trivially, so a frame that starts from newstack() and a pool whose
+// entries are not reachable from anywhere else starts in c15Own (given c15Consts).
+//@ func newstack props C15
+//@ panics none
+//@ modifies nothing
+//@ ensures [empty] fresh(result) && len(result.data) == 0 && off(result.data) == 0 && cap(result.data) == 1024 && fresh(result.data)
+
+//@ func newIntPool props C15
+//@ panics none
+//@ modifies nothing
+//@ ensures [empty] fresh(result) && fresh(result.pool) && len(result.pool.data) == 0 && fresh(result.pool.data)
+
+// UseGas: deduct exactly `gas` when available, otherwise change nothing and report failure.
+//@ func (*Contract).UseGas props C15
+//@ panics none
+//@ requires c != nil
+//@ modifies c.Gas
+//@ ensures [ok] result == (old(c.Gas) >= gas)
+//@ ensures [deducted] result ==> c.Gas == old(c.Gas) - gas
+//@ ensures [refused] !result ==> c.Gas == old(c.Gas)
